@@ -81,11 +81,13 @@ Definition vfs_pages_diff (x : sx) : sx :=
 
 (** which hypotheses of the positive polling theorem a poll violates.
     input [state; L0 listing; L1 listing; lock pgno]
-    output [shrink at L0 on a non-full file; stale L1; shrink at L1 on a non-full file] *)
+    output [shrink at L0 on a non-full file; stale L1; shrink at L1 on a non-full file;
+            an L1 file straddles maxTXID1 (hidden from every poll)] *)
 Definition vfs_poll_domain (x : sx) : sx :=
   let fl := poll_domain (asN (nthx 3 x)) (state_of_sx (nthx 0 x))
                         (files_of_sx (nthx 1 x)) (files_of_sx (nthx 2 x)) in
-  SL [sxB (fl_shrink_l0 fl); sxB (fl_stale_l1 fl); sxB (fl_shrink_l1 fl)].
+  SL [sxB (fl_shrink_l0 fl); sxB (fl_stale_l1 fl); sxB (fl_shrink_l1 fl);
+      sxB (l1_straddles (state_of_sx (nthx 0 x)) (files_of_sx (nthx 2 x)))].
 
 (** input [plan]  output 1 if no file of the plan has a larger commit than the last *)
 Definition vfs_open_domain (x : sx) : sx := sxB (open_size_domain (files_of_sx (nthx 0 x))).
